@@ -182,21 +182,6 @@ theorem lookup_of_mem_nodup {α β} [DecidableEq α] {l : List (α × β)} (hnd 
       simp only [List.lookup, this]
       exact ih hnd.2 e
 
-/-- the flux of the base reaction called `n` at the totals of an isotopomer state (the `fluxes`
-    argument of `LinearLabelMapper.build_model` when it is taken from the base model at the same
-    pools); a name that is no reaction reads 0 -/
-def fluxAtTotals (b : Base) (lv : List (Name × Nat)) (σ : LName → Rat) (n : Name) : Rat :=
-  match b.rxns.find? (fun r => r.name == n) with
-  | some r => r.rate (totalsEnv lv σ)
-  | none => 0
-
-/-- net stoichiometric coefficient of compound `x` in the base reaction called `n` (0 for a name that
-    is no reaction) -/
-def netOf (b : Base) (n x : Name) : Int :=
-  match b.rxns.find? (fun r => r.name == n) with
-  | some r => netStoich r.stoich x
-  | none => 0
-
 theorem find_of_mem_nodup {rs : List BRxn} (hnd : (rs.map (·.name)).Nodup) {r : BRxn} (h : r ∈ rs) :
     rs.find? (fun r' => r'.name == r.name) = some r := by
   induction rs with
